@@ -9,7 +9,7 @@ SNAP = sys.argv[2]
 sys.argv = sys.argv[:1] + sys.argv[3:]
 WORK = os.path.dirname(V.rstrip("/"))
 MODS = ["C02Hdr", "C02Gen", "C08Gen", "C18Gen", "C15Gen", "C14Gen", "C09Gen", "C11Gen", "C12Gen", "C03Gen", "C03GenMem", "C03GenErr", "C06Gen", "C06GenCor",
-        "C01Gen", "C10Gen", "C13Gen", "C09Gen2", "C16Gen", "C07", "C19"]
+        "C01Gen", "C10Gen", "C13Gen", "C09Gen2", "C16Gen", "C16GenRel", "C08Gen3", "C08Gen4", "C07Gen", "C13GenProp", "C07", "C19"]
 out = {}
 ids = sorted(os.path.basename(os.path.dirname(p)) for p in glob.glob("/verif/seeded/C*-m[78]/patch.diff"))
 if len(sys.argv) > 1:
